@@ -127,6 +127,9 @@ fn err_name(e: &ser::Error) -> String {
 		ser::Error::DuplicateError => "DuplicateError".to_string(),
 		ser::Error::InvalidBlockVersion => "InvalidBlockVersion".to_string(),
 		ser::Error::UnsupportedProtocolVersion => "UnsupportedProtocolVersion".to_string(),
+		// a variant the code under test may gain: the harness must keep building
+		#[allow(unreachable_patterns)]
+		_ => "Other".to_string(),
 	}
 }
 
